@@ -304,7 +304,7 @@ func withRawText() Option {
 // NewWriter returns a new Writer.
 func NewWriter(writer io.Writer) *Writer {
 	return &Writer{
-		tw:     tabwriter.NewWriter(writer, 1, 8, 1, ' ', tabwriter.TabIndent),
+		tw:     tabwriter.NewWriter(writer, 1, 8, 1, ' ', tabwriter.TabIndent|tabwriter.StripEscape),
 		writer: writer,
 	}
 }
@@ -390,9 +390,17 @@ func (w *Writer) write(opt *option) {
 		textList = append(textList, node.Format(opt.prefix))
 	}
 
-	text := strings.Join(textList, opt.infix)
-	text = strings.ReplaceAll(text, " \n", "\n")
-	text = strings.ReplaceAll(text, "\n ", "\n")
+	// join with the infix, but put no blank next to a line break of our own; the texts
+	// themselves (comments, string literals) are left alone
+	var sb strings.Builder
+	for i, t := range textList {
+		if i > 0 && !(opt.infix == WhiteSpace &&
+			(strings.HasPrefix(t, NewLine) || strings.HasSuffix(textList[i-1], NewLine))) {
+			sb.WriteString(opt.infix)
+		}
+		sb.WriteString(t)
+	}
+	text := sb.String()
 	if opt.rawText {
 		_, _ = fmt.Fprint(w.writer, text)
 		return
